@@ -206,7 +206,10 @@ func runCase(c Case) (fs []finding, execs int64, outcome string, err error) {
 		exp := expectedPath(c.Levels, c.FailLevel, c.FailNode)
 		switch {
 		case c.isItem():
-			prefix = "error-item:"
+			// the node's call returned a stream and the failure arrives later as an item, read by whoever consumes
+			// the stream: the statement does not say how such an item is attributed to a node path, so only
+			// "reported, not swallowed, original recoverable" is demanded (path attribution is counted, not judged)
+			prefix, exp = "error-item:", nil
 		case strings.HasPrefix(c.Native, "stream-conv"):
 			// clause (5) only: the panic happened in a stream-forwarding goroutine (or wherever the merged
 			// stream was read), not in a node body: no node path is demanded
@@ -258,10 +261,11 @@ func runCase(c Case) (fs []finding, execs int64, outcome string, err error) {
 		}
 		o := runParadigm(ctx, r, c.Paradigm, msg)
 		prefix := ""
+		exp := expectedPath(c.Levels, c.FailLevel, "t")
 		if c.isItem() {
-			prefix = "error-item:"
+			prefix, exp = "error-item:", nil
 		}
-		return judgeFailure(c, f, o, expectedPath(c.Levels, c.FailLevel, "t"), prefix), 0, outcomeOf(o), nil
+		return judgeFailure(c, f, o, exp, prefix), 0, outcomeOf(o), nil
 
 	case "merge-schema":
 		fs, oc := runMergeSchema(w, c)
